@@ -105,7 +105,7 @@ package proxy
 //@ guards ReplicationStreamObserver.streamGrowLock: !streamActive
 //@ contract (*ReplicationStreamObserver).ReportStreamValue
 //@   shape sig=(s *ReplicationStreamObserver)(idx int32,value int32)();loops=;lits=0;fv=
-//@   props C20 C07
+//@   props C20 C07 C06
 //@   requires s.wf()
 //@   ensures  @wf: s.wf()
 //@   ensures  @unlocked: !held(s.streamGrowLock)
